@@ -397,6 +397,7 @@ MANIFEST = dict(
          "verdict and the same errors on every value (pyEq_same_verdicts, pyEq_same_validation) and equality is transitive "
          "(pyEq_trans, pyEq_trans_strong). Tie: the boolean result of == compared between model and code on pairs of "
          "generated schemas, rebuilds and variants; search: reflexive / symmetric / transitive / != / verdict agreement / "
-         "schema==value on the real code.",
+         "schema==value on the real code."
+         " Source pins: the normalised text of every anchor file is compared with the text the model was last validated against; a changed file is a broken obligation (no-failing-input-found unless the search finds an input).",
     note="Partial: the full statement is false of the code (K8: schema.list([schema.any, ...]) == schema.list([schema.any, "
          "schema.any]); K6: schema.float(nan) != itself). Trusted: Lean kernel + standard axioms, hand model (sampling tie), codec.")
